@@ -291,6 +291,15 @@ Proof.
   cbn [flat_map]. rewrite map_app, IH. reflexivity.
 Qed.
 
+Definition good_atom (a : atom) : Prop := (fst a < npos)%nat /\ 1 <= snd a <= 31.
+
+(** valid patterns: good atoms, strictly decreasing positions *)
+Fixpoint pat_ok (bound : nat) (p : list atom) : Prop :=
+  match p with
+  | [] => True
+  | a :: r => good_atom a /\ (fst a < bound)%nat /\ pat_ok (fst a) r
+  end.
+
 (** Generic in the list of atoms, so that nothing below is tempted to compute. *)
 Section Table.
   Variable ats : list atom.
@@ -334,6 +343,31 @@ Section Table.
     - reflexivity.
     - intros c a. rewrite bd_row_eq. reflexivity.
   Qed.
+
+  Hypothesis Hats : forall a, good_atom a -> In a ats.
+
+  Lemma bd_in_later : forall a b, good_atom b -> (fst b < fst a)%nat -> In b (g_later a).
+  Proof.
+    intros a b Hb Hlt. unfold g_later. apply filter_In. split.
+    - apply Hats. exact Hb.
+    - apply Nat.ltb_lt. exact Hlt.
+  Qed.
+
+  Lemma bd_in_all_pats : forall bound p,
+    pat_ok bound p -> (length p <= 2)%nat -> In p g_all_pats.
+  Proof.
+    intros bound p Hok Hlen. unfold g_all_pats.
+    destruct p as [|a [|b [|c r]]].
+    - left. reflexivity.
+    - right. apply in_flat_map. exists a. destruct Hok as (Ha & _ & _). split.
+      + apply Hats. exact Ha.
+      + left. reflexivity.
+    - right. apply in_flat_map. exists a.
+      destruct Hok as (Ha & _ & Hb & Hlt & _). split.
+      + apply Hats. exact Ha.
+      + right. apply (in_map (fun b0 : atom => [a; b0])). apply bd_in_later; assumption.
+    - cbn [length] in Hlen. lia.
+  Qed.
 End Table.
 
 Notation later := (g_later atoms).
@@ -367,8 +401,6 @@ Qed.
 
 (** * Part 4: distance *)
 
-Definition good_atom (a : atom) : Prop := (fst a < npos)%nat /\ 1 <= snd a <= 31.
-
 Lemma bd_in_vals : forall v, 1 <= v <= 31 -> In v vals.
 Proof.
   intros v Hv. unfold vals. apply in_map_iff. exists (N.to_nat v). split.
@@ -382,36 +414,6 @@ Proof.
   apply in_flat_map. exists d. split.
   - apply in_seq. lia.
   - apply in_map. apply bd_in_vals. exact Hv.
-Qed.
-
-Lemma bd_in_later : forall a b, good_atom b -> (fst b < fst a)%nat -> In b (later a).
-Proof.
-  intros a b Hb Hlt. unfold g_later. apply filter_In. split.
-  - apply bd_in_atoms. exact Hb.
-  - apply Nat.ltb_lt. exact Hlt.
-Qed.
-
-(** valid patterns: good atoms, strictly decreasing positions *)
-Fixpoint pat_ok (bound : nat) (p : list atom) : Prop :=
-  match p with
-  | [] => True
-  | a :: r => good_atom a /\ (fst a < bound)%nat /\ pat_ok (fst a) r
-  end.
-
-Lemma bd_in_all_pats : forall bound p,
-  pat_ok bound p -> (length p <= 2)%nat -> In p all_pats.
-Proof.
-  intros bound p Hok Hlen. unfold g_all_pats.
-  destruct p as [|a [|b [|c r]]].
-  - left. reflexivity.
-  - right. apply in_flat_map. exists a. destruct Hok as (Ha & _ & _). split.
-    + apply bd_in_atoms. exact Ha.
-    + left. reflexivity.
-  - right. apply in_flat_map. exists a.
-    destruct Hok as (Ha & _ & Hb & Hlt & _). split.
-    + apply bd_in_atoms. exact Ha.
-    + right. apply (in_map (fun b0 : atom => [a; b0])). apply bd_in_later; assumption.
-  - cbn [length] in Hlen. lia.
 Qed.
 
 Lemma bd_pat_ok_weaken : forall p b b', (b <= b')%nat -> pat_ok b p -> pat_ok b' p.
@@ -468,8 +470,8 @@ Proof.
   intros b1 b2 p q Hp Hq Lp Lq Heq.
   apply (bd_nodup_map_inj _ _ xsyn all_pats).
   - exact bd_all_pats_nodup.
-  - apply (bd_in_all_pats b1); assumption.
-  - apply (bd_in_all_pats b2); assumption.
+  - apply (bd_in_all_pats atoms bd_in_atoms b1); assumption.
+  - apply (bd_in_all_pats atoms bd_in_atoms b2); assumption.
   - exact Heq.
 Qed.
 
